@@ -6,7 +6,7 @@ from .. import ref, cfgspace
 from ..ast import bind, show, walk, is_var
 
 ID = "C14"
-RULE = ("Mode G+M: EVERY configurator with 1..2 rules from a 28-rule menu (incl. defaulted rules whose non-default alternative is a compound package shared with other rules) (cc.Any / cc.Xor with and without default at every position, "
+RULE = ("Mode G+M: EVERY configurator with 1..2 rules from a 32-rule menu (incl. defaulted rules whose non-default alternative is a compound package shared with other rules) (cc.Any / cc.Xor with and without default at every position, "
         "pg.Any, pg.Xor, AtMost(k), All, Imply with item/All/Any conditions and item/All/defaulted consequences; explicit and generated rule "
         "ids) x EVERY priority dictionary of the alphabet (0..3 ids, values in {-3..3}\\{0}: ties, several levels, negatives, a rule id, an "
         "unknown id) -> select(*prios, solver=capture). oracle: over ALL feasible 0/1 points of the polyhedron the captured objective is "
@@ -18,7 +18,7 @@ ASSUMPTIONS = [
     "all items boolean (stated)", "process-wide lru caches are cleared per configurator (they are state under test only in C09)",
     "the -2 tags are read from the real objects (default_prios) and cross-checked against the AST: one tagged inner node per defaulted rule, over exactly the non-default items",
 ]
-BOUNDS = {"quick": "all 1..2-rule configurators (both id policies) + every third 3-rule configurator (explicit ids), 114 dictionaries", "thorough": "all 1..3-rule configurators, both id policies, 114 dictionaries"}
+BOUNDS = {"quick": "all 1..2-rule configurators (both id policies) + every third 3-rule configurator (explicit ids), 116 dictionaries", "thorough": "all 1..3-rule configurators, both id policies, 116 dictionaries"}
 
 
 _CFG = {}
